@@ -114,8 +114,31 @@ def build(repo=None):
         ob.setdefault("kind", "vc")
         ob["serves"] = ["C08"]
         obligations.append(ob)
+    # ---- dispatch (syntactic obligations on the current text of check_type and of the dispatch table): both spellings of a union reach check_union
+    ct = mod.func("check_type")
+    functions.append({"qualname": "jaxtyping._typeguard.check_type (region: the two statements that route unions)", "sha256_16": mod.sha(ct), "lines": [ct.lineno, ct.end_lineno]})
+    cparams = [a.arg for a in ct.args.args]
+    tops = [b for b in ct.body if not (isinstance(b, ast.Expr) and isinstance(b.value, ast.Constant))]
+    idx_origin = next((i for i, b in enumerate(tops) if isinstance(b, ast.Assign) and "__origin__" in ast.unparse(b.value)), None)
+    pep604 = None
+    for i, b in enumerate(tops):
+        if isinstance(b, ast.If) and not b.orelse and ast.unparse(b.test) == f"isinstance({cparams[2]}, _UnionType)" and len([x for x in b.body if not isinstance(x, ast.Expr) or not isinstance(x.value, ast.Constant)]) == 1:
+            r = [x for x in b.body if not isinstance(x, ast.Expr) or not isinstance(x.value, ast.Constant)][0]
+            if isinstance(r, ast.Return) and r.value is not None and ast.unparse(r.value) == f"check_union({cparams[0]}, {cparams[1]}, {cparams[2]}, {cparams[3]})":
+                pep604 = i
+    # between the forward-reference resolution and the PEP 604 test nothing may return or raise for a union: the test sits directly before the __origin__ lookup
+    before_ok = pep604 is not None and idx_origin is not None and pep604 == idx_origin - 1
+    ut = [n for n in mod.tree.body if isinstance(n, ast.Assign) and any(getattr(t, "id", None) == "_UnionType" for t in n.targets)]
+    ut_ok = len(ut) == 1 and ast.unparse(ut[0].value) in ("getattr(types, 'UnionType', ())", 'getattr(types, "UnionType", ())', "types.UnionType")
+    tbl = [n for n in mod.tree.body if isinstance(n, ast.Assign) and any(getattr(t, "id", None) == "origin_type_checkers" for t in n.targets) and isinstance(n.value, ast.Dict)]
+    tbl_ok = len(tbl) == 1 and any(ast.unparse(k_) == "Union" and ast.unparse(v_) == "check_union" for k_, v_ in zip(tbl[0].value.keys, tbl[0].value.values))
+    rebinds = [n for n in ast.walk(mod.tree) if isinstance(n, (ast.Assign, ast.AugAssign, ast.Delete)) and "origin_type_checkers[Union]" in ast.unparse(n)]
+    obligations.append({"clause": "C08:union:check_type-routes-PEP-604-unions-(X|Y)-to-check_union-before-the-__origin__-dispatch", "kind": "vc", "pc": [], "path": [], "serves": ["C08"],
+                        "meta": {"found_at": z3.StringVal(str(pep604)), "origin_at": z3.StringVal(str(idx_origin))}, "goal": z3.BoolVal(bool(before_ok and ut_ok))})
+    obligations.append({"clause": "C08:union:the-dispatch-table-routes-typing.Union-to-check_union", "kind": "vc", "pc": [], "path": [], "serves": ["C08"], "meta": {}, "goal": z3.BoolVal(bool(tbl_ok and not rebinds))})
     obligations.append({"clause": "canary:tg_union-loop-assumptions-satisfiable", "kind": "canary", "pc": [n >= 0, 0 <= k, k < n, 0 <= j0, j0 < k, V(j0) == 1, V(k) == 0], "goal": z3.BoolVal(False), "path": [], "meta": {}})
     return {"unit": NAME, "functions": functions, "obligations": obligations, "paths": paths, "stats": {"exits": ",".join(sorted(set(exits)))},
             "assumptions": ["vendored check_type on ONE union member is an opaque callee with verdict accept / TypeError / other exception (its own contract is assumed; bounded stand-ins b08, b21)",
                             "a union's members are the sequence `__args__` (typing.Union and types.UnionType, T5)",
-                            "get_type_name / qualified_name (message helpers) return strings and do not raise"]}
+                            "get_type_name / qualified_name (message helpers) return strings and do not raise",
+                            "the two routing clauses are syntactic obligations on the current text of check_type / origin_type_checkers (they go refuted on a rewrite of those two statements; b21 covers the same routing semantically)"]}
